@@ -316,10 +316,18 @@ func luaBody(src, key string, b c20Beh) string {
 		sb.WriteString("package.loaded[name] = nil\nreturn NT()\n")
 	case "raise":
 		sb.WriteString("error(\"boom:\" .. name)\n")
-	case "mod":
-		sb.WriteString("module(name)\nTAGPATH(name)\n")
-	case "setmod":
-		sb.WriteString("package.loaded[name] = NT()\nmodule(name)\nTAGPATH(name)\n")
+	case "mod", "setmod":
+		if b.final == "setmod" {
+			sb.WriteString("package.loaded[name] = NT()\n")
+		}
+		// every other module body (by its key) uses package.seeall and further option functions: they run once with
+		// the module table and change nothing require can see; through seeall the body still reaches the globals
+		if seeall := (len(key)+len(src)+len(b.steps))%2 == 1; seeall {
+			sb.WriteString("local opts = 0\nmodule(name, package.seeall, function(m) opts = opts + 1 if m ~= package.loaded[name] then error('module option got another table') end end)\nTAGPATH(name)\n")
+			sb.WriteString("if string == nil or _NAME ~= name or _M ~= package.loaded[name] then error('module environment is wrong') end\n")
+		} else {
+			sb.WriteString("module(name)\nTAGPATH(name)\nif _NAME ~= name or _M ~= package.loaded[name] then error('module environment is wrong') end\n")
+		}
 	default:
 		panic("bad final " + b.final)
 	}
